@@ -23,6 +23,9 @@ Lemmas:
   6. C01, last clause: `built(pre + b1 + b2 + post) == built(pre + b2 + b1 + post)` for two complete, distinctly named class blocks -- the mapper does
      not depend on the order of class blocks (any reordering is a sequence of such transpositions). Via a segment-wise fold `fold_from` and
      `lemma_block_from_any_state`: what a block leaves as class in progress depends on the block alone.
+  7. `wf_for_selftest(c)` -- the precondition under which unit u9 proves that `ProguardCache::test()` runs through without a failing assertion --
+     holds for every cache written from a mapping (class names / file readable, `members_offset` tiles, every member's strings readable, the
+     parameter string included).
 ASSUMED: BTreeMap<&str, V> and BTreeMap<(&str, &str), V> iterate in strictly ascending (lexicographic) key order and `vals` are the values in that order (std);
 the string-table round trip of watto for the strings of the records (`resolves`: an offset handed out reads back the string from the
 final table's bytes; offsets below 2^32-1).
@@ -981,6 +984,178 @@ pub proof fn lemma_order_of_distinctly_named_class_blocks_does_not_matter<'s>(pr
     }
 }
 
+
+// ======== `ProguardCache::test()` accepts every cache written from a mapping (its precondition in unit u9 holds) ========
+pub open spec fn params_readable(tn: StringTable, m: Member) -> bool { tbl(table_bytes(tn), m.params_offset) is Some }
+pub proof fn lemma_members_upto_is_members_before(cs: Seq<ClassInProgress>, n: int, i: int)
+    requires 0 <= i <= n <= cs.len(), forall|k: int| 0 <= k < cs.len() ==> wf_cip(#[trigger] cs[k]),
+    ensures members_upto(emitted_classes(cs, n), i) == members_before(cs, i),
+    decreases i
+{
+    if i > 0 {
+        lemma_members_upto_is_members_before(cs, n, i - 1);
+        assert(emitted_classes(cs, n)[i - 1] == emitted_class(cs, i - 1));
+        assert(wf_cip(cs[i - 1]));
+    }
+}
+pub proof fn lemma_self_test_accepts_every_written_cache<'s>(ts: Seq<StringTable>, recs: Seq<ProguardRecord<'s>>,
+        classes: BTreeMap<&'s str, ClassInProgress<'s>>, c: ProguardCache)
+    requires
+        tables_ok(ts, recs, recs.len() as int), recs_ok(ts[recs.len() as int], recs), recs_names_ok(ts[recs.len() as int], recs), table_ok(ts[recs.len() as int]),
+        abs_done(bmap(classes)) == w_flush(w_run(ts, recs, recs.len() as int).done, w_run(ts, recs, recs.len() as int).cur),
+        forall|i: int| 0 <= i < vals(classes).len() ==> wf_cip(#[trigger] vals(classes)[i]),
+        all_members(vals(classes), vals(classes).len() as int).len() <= u32::MAX, all_by_params(vals(classes), vals(classes).len() as int).len() <= u32::MAX,
+        c.classes@ == emitted_classes(vals(classes), vals(classes).len() as int),
+        c.members@ == all_members(vals(classes), vals(classes).len() as int),
+        c.members_by_params@ == all_by_params(vals(classes), vals(classes).len() as int),
+        c.string_bytes@ == table_bytes(ts[recs.len() as int]),
+    ensures
+        /*@L:self_test_precondition_holds_for_every_written_cache:C09*/ wf_for_selftest(c),
+{
+    let nn = recs.len() as int; let tn = ts[nn]; let sb = table_bytes(tn);
+    let cs = vals(classes); let n = cs.len() as int; let ks = keys_of(classes);
+    lemma_cache_written_from_a_mapping_satisfies_the_readers_invariant(ts, recs, classes, c);
+    lemma_emitted_class_section_is_strictly_sorted(ts, recs, classes);
+    lemma_mapper_and_cache_writer_collect_the_same_entries(ts, recs);
+    lemma_names_run(ts, recs, nn);
+    axiom_btree_str_order(classes);
+    let m = built(recs, true); let ws = w_run(ts, recs, nn); let w = w_flush(ws.done, ws.cur);
+    assert forall|i: int| 0 <= i < c.classes@.len() implies
+        tbl(sb, (#[trigger] c.classes@[i]).obfuscated_name_offset) is Some && tbl(sb, c.classes@[i].original_name_offset) is Some
+        && (c.classes@[i].file_name_offset != absent() ==> tbl(sb, c.classes@[i].file_name_offset) is Some)
+        && c.classes@[i].members_offset as int == members_upto(c.classes@, i) by {
+        let key = ks[i];
+        assert(c.classes@[i] == emitted_class(cs, i));
+        assert(bmap(classes).contains_key(key) && bmap(classes)[key] == cs[i]);
+        assert(wf_class(c, c.classes@[i]));
+        assert(abs_done(bmap(classes)).contains_key(key) && abs_done(bmap(classes))[key] == abs_cip(cs[i]));
+        assert(w.contains_key(key) && m.contains_key(key));
+        assert(rel_class(tn, m[key], w[key]));
+        assert(w[key].class == cs[i].class);
+        match m[key].file_name { Some(f) => { assert(resolves(tn, f@)); }, None => {} }
+        lemma_members_upto_is_members_before(cs, n, i);
+        lemma_members_before(cs, i);
+        lemma_members_before(cs, n);
+        lemma_tiling(cs, n, i);
+    }
+    lemma_members_upto_is_members_before(cs, n, n);
+    lemma_members_before(cs, n);
+    // every member record: readable strings, including the parameter string
+    assert forall|k: int| 0 <= k < c.members@.len() implies selftest_member_ok(sb, #[trigger] c.members@[k]) by {
+        lemma_member_in_some_class(ts, recs, classes, k);
+    }
+}
+// every record of the member section belongs to one collected class, hence satisfies member_ok and has a readable parameter string
+pub proof fn lemma_member_in_some_class<'s>(ts: Seq<StringTable>, recs: Seq<ProguardRecord<'s>>, classes: BTreeMap<&'s str, ClassInProgress<'s>>, k: int)
+    requires
+        tables_ok(ts, recs, recs.len() as int), recs_ok(ts[recs.len() as int], recs), recs_names_ok(ts[recs.len() as int], recs), table_ok(ts[recs.len() as int]),
+        abs_done(bmap(classes)) == w_flush(w_run(ts, recs, recs.len() as int).done, w_run(ts, recs, recs.len() as int).cur),
+        0 <= k < all_members(vals(classes), vals(classes).len() as int).len(),
+    ensures selftest_member_ok(table_bytes(ts[recs.len() as int]), all_members(vals(classes), vals(classes).len() as int)[k]),
+{
+    let cs = vals(classes);
+    lemma_all_members_ok(ts, recs, classes, cs.len() as int, k);
+}
+pub proof fn lemma_all_members_ok<'s>(ts: Seq<StringTable>, recs: Seq<ProguardRecord<'s>>, classes: BTreeMap<&'s str, ClassInProgress<'s>>, n: int, k: int)
+    requires
+        tables_ok(ts, recs, recs.len() as int), recs_ok(ts[recs.len() as int], recs), recs_names_ok(ts[recs.len() as int], recs), table_ok(ts[recs.len() as int]),
+        abs_done(bmap(classes)) == w_flush(w_run(ts, recs, recs.len() as int).done, w_run(ts, recs, recs.len() as int).cur),
+        0 <= n <= vals(classes).len(), 0 <= k < all_members(vals(classes), n).len(),
+    ensures selftest_member_ok(table_bytes(ts[recs.len() as int]), all_members(vals(classes), n)[k]),
+    decreases n
+{
+    let nn = recs.len() as int; let tn = ts[nn]; let sb = table_bytes(tn);
+    let cs = vals(classes); let ks = keys_of(classes);
+    if n > 0 {
+        let prev = all_members(cs, n - 1); let f = flat(vals(cs[n - 1].members));
+        assert(all_members(cs, n) == prev + f);
+        if k < prev.len() { lemma_all_members_ok(ts, recs, classes, n - 1, k); assert(all_members(cs, n)[k] == prev[k]); }
+        else {
+            axiom_btree_str_order(classes);
+            let key = ks[n - 1];
+            assert(bmap(classes).contains_key(key) && bmap(classes)[key] == cs[n - 1]);
+            lemma_class_of_key(ts, recs, classes, key);
+            let x = k - prev.len();
+            assert(all_members(cs, n)[k] == f[x]);
+            assert(member_ok(tn, f[x]));
+            // the parameter string: every record under a method-name key carries a readable parameter offset
+            lemma_params_readable(ts, recs, classes, key, x);
+        }
+    }
+}
+pub open spec fn cip_params_ok<'s>(tn: StringTable, w: ACip<'s>) -> bool {
+    forall|k: &'s str, i: int| 0 <= i < (w.members)(k).len() ==> params_readable(tn, #[trigger] (w.members)(k)[i])
+}
+pub open spec fn params_state<'s>(tn: StringTable, w: AWState<'s>) -> bool {
+    cip_params_ok(tn, w.cur) && forall|k: &'s str| #[trigger] w.done.contains_key(k) ==> cip_params_ok(tn, w.done[k])
+}
+pub proof fn lemma_params_step<'s>(tn: StringTable, w: AWState<'s>, tf: StringTable, rec: ProguardRecord<'s>, next: Option<&ProguardRecord<'s>>)
+    requires params_state(tn, w), stable(tf, tn), rec_names_ok(tn, rec), strings_in(tf, rec),
+    ensures params_state(tn, w_step(w, tf, rec, next)),
+{
+    let w1 = w_step(w, tf, rec, next);
+    match rec {
+        ProguardRecord::Header { key, value } => {
+            assert forall|k: &'s str, i: int| 0 <= i < (w1.cur.members)(k).len() implies params_readable(tn, #[trigger] (w1.cur.members)(k)[i]) by { assert((w1.cur.members)(k) == (w.cur.members)(k)); }
+        },
+        ProguardRecord::Class { original, obfuscated } => {
+            assert forall|k: &'s str, i: int| 0 <= i < (w1.cur.members)(k).len() implies params_readable(tn, #[trigger] (w1.cur.members)(k)[i]) by { assert((w1.cur.members)(k) == Seq::<Member>::empty()); }
+            assert forall|k: &'s str| #[trigger] w1.done.contains_key(k) implies cip_params_ok(tn, w1.done[k]) by {
+                if w.cur.name@.len() > 0 && k == w.cur.name { } else { assert(w.done.contains_key(k)); }
+            }
+        },
+        ProguardRecord::Method { ty, original, obfuscated, arguments, original_class, line_mapping } => {
+            let ss = strings_of(rec);
+            assert(ss[2] == arguments@);
+            assert(offset_of(tf, arguments@) is Some);
+            assert forall|k: &'s str, i: int| 0 <= i < (w1.cur.members)(k).len() implies params_readable(tn, #[trigger] (w1.cur.members)(k)[i]) by {
+                if k == obfuscated { if i < (w.cur.members)(k).len() { assert((w1.cur.members)(k)[i] == (w.cur.members)(k)[i]); } } else { assert((w1.cur.members)(k) == (w.cur.members)(k)); }
+            }
+        },
+        _ => {},
+    }
+}
+pub proof fn lemma_params_run<'s>(ts: Seq<StringTable>, recs: Seq<ProguardRecord<'s>>, n: int)
+    requires tables_ok(ts, recs, recs.len() as int), recs_names_ok(ts[recs.len() as int], recs), 0 <= n <= recs.len(),
+    ensures params_state(ts[recs.len() as int], w_run(ts, recs, n)),
+    decreases n
+{
+    let nn = recs.len() as int; let tn = ts[nn];
+    if n > 0 {
+        lemma_params_run(ts, recs, n - 1);
+        lemma_tables_stable(ts, recs, nn, n);
+        assert(table_grew(ts[n - 1], ts[n], strings_of(recs[n - 1])));
+        assert(rec_names_ok(tn, recs[n - 1]));
+        lemma_params_step(tn, w_run(ts, recs, n - 1), ts[n], recs[n - 1], next_of(recs, n));
+    }
+}
+pub proof fn lemma_params_readable<'s>(ts: Seq<StringTable>, recs: Seq<ProguardRecord<'s>>, classes: BTreeMap<&'s str, ClassInProgress<'s>>, key: &'s str, x: int)
+    requires
+        tables_ok(ts, recs, recs.len() as int), recs_names_ok(ts[recs.len() as int], recs),
+        abs_done(bmap(classes)) == w_flush(w_run(ts, recs, recs.len() as int).done, w_run(ts, recs, recs.len() as int).cur),
+        bmap(classes).contains_key(key), 0 <= x < flat(vals(bmap(classes)[key].members)).len(),
+    ensures params_readable(ts[recs.len() as int], flat(vals(bmap(classes)[key].members))[x]),
+{
+    let nn = recs.len() as int; let tn = ts[nn];
+    lemma_params_run(ts, recs, nn);
+    let ws = w_run(ts, recs, nn); let w = w_flush(ws.done, ws.cur);
+    let c = bmap(classes)[key];
+    assert(abs_done(bmap(classes)).contains_key(key) && abs_done(bmap(classes))[key] == abs_cip(c));
+    assert(w.contains_key(key));
+    if ws.cur.name@.len() > 0 && key == ws.cur.name { assert(w[key] == ws.cur); } else { assert(ws.done.contains_key(key)); assert(w[key] == ws.done[key]); }
+    assert(cip_params_ok(tn, w[key]));
+    axiom_btree_str_order(c.members);
+    let g1 = vals(c.members); let k1 = keys_of(c.members);
+    assert forall|g: int, i: int| 0 <= g < g1.len() && 0 <= i < g1[g]@.len() implies params_readable(tn, #[trigger] g1[g]@[i]) by {
+        let k = k1[g];
+        assert(bmap(c.members).contains_key(k) && bmap(c.members)[k] == g1[g]);
+        assert((abs_cip(c).members)(k) == vec_at(c.members, k));
+        assert((w[key].members)(k) == g1[g]@);
+        assert(params_readable(tn, (w[key].members)(k)[i]));
+    }
+    lemma_flat_all(g1, |m: Member| params_readable(tn, m));
+}
+
 // the hypotheses are satisfiable whenever the table resolves the record's strings (no contradiction hidden in the requires)
 pub proof fn lemma_same_entry_instance(t: StringTable, original: &str)
     requires resolves(t, original@),
@@ -1078,6 +1253,13 @@ def build():
         cut(cache_model, r"pub open spec fn wf_class\b"), cut(cache_model, r"pub open spec fn wf_cache\b"),
         cut(std_specs, r"pub uninterp spec fn seq_cmp\b"), "#[verifier::external_body]\n" + cut(std_specs, r"pub proof fn axiom_seq_cmp_total\b"),
     ]
+    from . import u9_selftest
+    u9_src = inspect.getsource(u9_selftest)
+    # u9 has its own `member_strings_ok` (it includes the parameter string); cache_model.rs has another one under the same name: the self-test's
+    # version is renamed mechanically here (the ONLY change to a cut text in this unit)
+    pieces += [cut(u9_src, r"pub open spec fn members_upto\b"),
+               cut(u9_src, r"pub open spec fn member_strings_ok\b").replace("member_strings_ok", "selftest_member_ok"),
+               cut(u9_src, r"pub open spec fn wf_for_selftest\b").replace("member_strings_ok", "selftest_member_ok")]
     u.raw("// ---- definitions cut out of the units / contract files that use them (same text) ----\n" + "".join(pieces), "specifications under comparison")
     u.raw(label_helper_lemmas(LEMMA, "C02"), "lemma")
     u.raw(FOOTER, "footer")
